@@ -2,4 +2,4 @@ Require Extraction.
 Require Import ExtrOcamlBasic.
 From Coq Require Import ZArith NArith.
 From VB Require Import Conc.ValidatorDefs.
-Extraction "Conc_model.ml" Nat.pred N.succ Z.succ run run_count init seq_verdict holders holds_token.
+Extraction "Conc_model.ml" Nat.pred N.succ Z.succ step run run_count init seq_verdict holders holds_token quiescent_main.
